@@ -249,7 +249,7 @@ class ADEVPrimitive(Pytree):
 ####################
 
 
-def sample_primitive(adev_prim: ADEVPrimitive, *args):
+def sample_primitive(adev_prim: ADEVPrimitive, *args, sample_shape=()):
     """Integrate an ADEV primitive with the PJAX infrastructure.
 
     This function wraps an ADEVPrimitive so it can be used within GenJAX's
@@ -280,6 +280,7 @@ def sample_primitive(adev_prim: ADEVPrimitive, *args):
 
     return sample_binder(
         _adev_prim_call,
+        sample_shape=sample_shape,
         primitive=adev_sample_p,
         primitive_params={"adev_prim": adev_prim},
     )(*args)
@@ -477,10 +478,30 @@ class ADEV(Pytree):
             for eqn in eqns:
                 in_vals = jax_util.safe_map(pure_env.read, eqn.invars)
                 subfuns, params = eqn.primitive.get_bind_params(eqn.params)
-                args = subfuns + in_vals
-                outs = eqn.primitive.bind(*args, **params)
-                if not eqn.primitive.multiple_results:
-                    outs = [outs]
+                primitive, inner_params = PPPrimitive.unwrap(eqn.primitive)
+                if primitive is adev_sample_p:
+                    # Draw afresh.  Re-binding the staged equation would replay the draw
+                    # whose (keyless) PRNG key was baked in when the program was staged,
+                    # so without `seed` repeated calls would all see the same outcome.
+                    site_args = jtu.tree_unflatten(
+                        inner_params["in_tree"], in_vals[inner_params["num_consts"] :]
+                    )
+                    if inner_params.get("yes_kwargs", False):
+                        site_args = site_args[0]
+                    if not isinstance(site_args, tuple):
+                        site_args = (site_args,)
+                    outs = [
+                        sample_primitive(
+                            inner_params["adev_prim"],
+                            *site_args,
+                            sample_shape=tuple(inner_params.get("sample_shape", ())),
+                        )
+                    ]
+                else:
+                    args = subfuns + in_vals
+                    outs = eqn.primitive.bind(*args, **params)
+                    if not eqn.primitive.multiple_results:
+                        outs = [outs]
                 jax_util.safe_map(pure_env.write, eqn.outvars, outs)
 
             outs = jax_util.safe_map(pure_env.read, jaxpr.outvars)
